@@ -15,6 +15,7 @@ import (
 	"fmt"
 	"go/token"
 	"go/types"
+	"strings"
 
 	"golang.org/x/tools/go/ssa"
 )
@@ -93,6 +94,17 @@ func (p *PX) firstOctet(t *Term, st *pxState, param *Term, v int64, depth int) (
 	case TLeaf:
 		if f, ok := st.vals["first:"+t.key]; ok {
 			return p.octetValue(f, st, param, v, depth+1)
+		}
+		// the text accumulated in a strings.Builder / bytes.Buffer: its first octet is
+		// the first octet written
+		if c, ok := t.V.(*ssa.Call); ok && c.Call.StaticCallee() != nil {
+			switch qualifiedFnName(c.Call.StaticCallee()) {
+			case "(*strings.Builder).String", "(*bytes.Buffer).String":
+				if bs := st.bseq[strings.Trim(t.key, "<>")]; bs != nil && len(bs.Oct) > 0 && bs.Oct[0] != nil {
+					return p.octetValue(bs.Oct[0], st, param, v, depth+1)
+				}
+				return 0, false
+			}
 		}
 		if o := st.originOf(t); o != nil && len(o.Args) == 1 {
 			if x, ok := p.firstOctet(o.Args[0], st, param, v, depth+1); ok {
